@@ -69,6 +69,12 @@ type WALSpec struct {
 	SplitFrame bool `json:"split_frame"`
 	// SyncSplit: additionally split the body of the commit frame in two.
 	SyncSplit bool `json:"sync_split,omitempty"`
+	// TornTail (rollback only): after the listed frames one more frame is begun
+	// and not finished - SQLite writes a frame as header then body, and a failing
+	// body write (disk full, I/O error) makes it roll the transaction back with
+	// the log ending in a partial frame. 1 = the 24-byte header only, 2 = header
+	// and half of the page.
+	TornTail int `json:"torn_tail,omitempty"`
 }
 
 // ReadLock takes WAL read mark 0 (log empty or fully backfilled) or 1.
@@ -337,6 +343,21 @@ func (c *Conn) RunWALTx(spec WALSpec) (res TxResult) {
 		res.Finalized = true
 		res.NewImage = nm
 	} else {
+		if spec.TornTail > 0 {
+			pg := d.RandPage()
+			fh := w.Frame(2, 0, pg)
+			if err := d.step("wal torn frame header"); err != nil {
+				return fail("wal-frame", err)
+			}
+			if err := c.write(c.wal, fh, off); err != nil {
+				return fail("wal-frame-hdr", err)
+			}
+			if spec.TornTail > 1 {
+				if err := c.write(c.wal, pg[:len(pg)/2], off+ref.WALFrameHeaderSize); err != nil {
+					return fail("wal-frame-body", err)
+				}
+			}
+		}
 		// rollback: frames stay in the file beyond WalEnd; the next writer
 		// overwrites them. If we restarted the log the new header stays.
 		d.Change--
